@@ -656,3 +656,12 @@ func MkUpdate(m model.Snap, ts time.Time) snapshot.Update {
 	return snapshot.Update{Snapshot: &s, NameInfo: snapshot.NameInfo{Kind: snapshot.KindSnapshot, InstanceID: m.Meta.InstanceID,
 		Timestamp: ts, SyncerName: DBName, GenerationID: "GX", Extension: snapshot.DefaultExtension}}
 }
+
+// DecodeRaw gunzips a blob.
+func DecodeRaw(data []byte) ([]byte, error) {
+	r, err := gzip.NewReader(bytes.NewReader(data))
+	if err != nil {
+		return nil, err
+	}
+	return io.ReadAll(r)
+}
